@@ -7,7 +7,7 @@ META = {
     "level": "model_checking",
     "technique": "TLA+ reference account model (StateDB.tla: world as a function, snapshots as a stack of full copies, Finalise per rule set) model-checked with TLC; TLC graph edges and simulated behaviours replayed on state.StateDB with all observables compared after every step and roots checked against a StackTrie built from the model world; recorded random histories validated by StateDBTrace.tla",
     "text": "TLC exhaustively explores every sequence of StateDB operations (balance, nonce, code, storage, create, contract creation, self-destruct, nested snapshot/revert, Finalise) over a small universe under the four rule sets (pre/post EIP-158, EIP-6780, Amsterdam) and checks the model's own laws (revert restores exactly, Finalise deletes exactly by rule and clears the scratch data). The model is bound to the code three ways: every transition of a TLC state graph is covered by paths replayed on fresh real StateDBs; behaviours sampled by TLC -simulate over a larger universe (transient storage, access list, refund, logs, several transactions) are replayed; long seeded random histories on real StateDBs (hash and path scheme, with and without snapshot tree, warm and cold projection) are recorded with the full projected state per call and TLC checks each one is a behaviour of the specification. In all three every getter for every address and slot is compared after every call, and at IntermediateRoot the real root (and every storage root) must equal the root a StackTrie computes from the model's accounts and storage.",
-    "note": "Trusts TLC, trie.StackTrie/rlp/keccak (reference root), and the projection in harness/statekit. Histories are restricted to what the EVM can produce under EIP-6780 rule sets (feasibility guards F1-F5 in StateDB.tla: monotone nonces, code cleared only on accounts with nonce>=1, SSTORE only in contracts, SELFDESTRUCT only on same-transaction contracts, CreateAccount only on absent addresses); SetCode is preceded by a code read as both EVM call sites do. Values < 2^31. Verkle/UBT mode and witness collection are out of scope.",
+    "note": "Trusts TLC, trie.StackTrie/rlp/keccak (reference root), and the projection in harness/statekit. Histories are restricted to what the EVM can produce under EIP-6780 rule sets (feasibility guards F1-F5 in StateDB.tla: monotone nonces, code cleared only on accounts with nonce>=1, SSTORE only in contracts, SELFDESTRUCT only on same-transaction contracts, CreateAccount only on absent addresses); Values < 2^31. Verkle/UBT mode and witness collection are out of scope.",
     "design_ref": "3.3 C13",
 }
 
@@ -15,6 +15,7 @@ RULES = ["pre158", "eip158", "cancun", "amsterdam"]
 LEANOPS = '{"BeginTx", "AddBalance", "SubBalance", "SetNonce", "SetState", "SelfDestruct", "CreateAccount", "EvmCreate", "Snapshot", "Revert", "Finalise"}'
 STOREOPS = '{"BeginTx", "SetState", "Finalise", "IntermediateRoot"}'
 STOREOPS_T = '{"BeginTx", "SetState", "Snapshot", "Revert", "Finalise", "IntermediateRoot"}'
+RESUROPS = '{"BeginTx", "SetState", "SelfDestruct", "AddBalance", "Finalise", "IntermediateRoot"}'
 TOUCHOPS = '{"BeginTx", "AddBalance", "SubBalance", "SetState", "CreateAccount", "EvmCreate", "Snapshot", "Revert", "Finalise"}'
 ALLOPS = '{"BeginTx", "AddBalance", "SubBalance", "SetBalance", "SetNonce", "SetCode", "SetState", "SelfDestruct", "CreateAccount", "EvmCreate", "Snapshot", "Revert", "Finalise"}'
 
@@ -84,6 +85,10 @@ def run(ctx):
     # distinct node of the graph and every edge out of it is replayed
     plans.append((RULES if ctx.thorough else [RULES[ctx.seed % 4], RULES[(ctx.seed + 1) % 4]], [0, 3], 0,
                   STOREOPS_T if ctx.thorough else STOREOPS, ctx.pick(0, 1), 0, 4, 2))
+    # destruct and resurrection across transactions (pre-Cancun rule sets): an account with storage is destructed
+    # in one transaction and written / funded again in a later one; its old storage must be gone whether or not
+    # the tries were flushed in between
+    plans.append((["pre158", "eip158"] if ctx.thorough else [RULES[ctx.seed % 2]], [3], 0, RESUROPS, 0, 0, 3, 1))
     for i, plan in enumerate(plans):
         rules, bases, ripemd, ops, maxsnap, maxpaths = plan[:6]
         maxtx, maxval = (plan[6], plan[7]) if len(plan) > 6 else (1, 1)
@@ -97,7 +102,7 @@ def run(ctx):
         write_json(ep, edges)
         del edges, res
         ctx.drive(drv, ["-mode", "paths", "-in", ep, "-ripemd", ripemd, "-maxpaths", maxpaths],
-                  name="c13-paths[%s]" % ",".join(rules), timeout=ctx.pick(1800, 7200))
+                  name="c13-paths[%d:%s]" % (i, ",".join(rules)), timeout=ctx.pick(1800, 7200))
         os.remove(ep)
 
     # R (sampled): behaviours of a larger universe sampled by TLC -simulate
@@ -114,19 +119,9 @@ def run(ctx):
     write_json(bp, bs)
     ctx.drive(drv, ["-mode", "mbt", "-in", bp, "-ripemd", 2], name="c13-mbt", timeout=ctx.pick(1800, 7200))
 
-    # TODO-KNOWN-FINDING (pending coordinator decision, spec/state/NOTES.md "Candidate finding C13-F1"):
-    # Snapshot; SetCode; RevertToSnapshot on an account whose code was never read loses the code.  The
-    # histories above read the code before SetCode (as the EVM does); the probe keeps the reproduction alive
-    # and reports it as a note, not as a verdict.
-    ps, _ = ctx.drive(drv, ["-mode", "probe"], name="c13-probe", timeout=1800)
-    if ps.get("extra", {}).get("setcode_revert_loses_uncached_code"):
-        if ctx.known_finding("C13-F1", "raw SetCode + RevertToSnapshot loses uncached code"):
-            pass                                    # listed as open in known_findings.json: KNOWN-FINDING line
-        elif any(kf.get("id") == "C13-F1" for kf in ctx._known_findings):
-            ctx.violation("regression of fixed finding C13-F1: Snapshot; SetCode; RevertToSnapshot on an account whose code was not read loses the code",
-                          {"kind": "behaviour", "driver": "c13-probe", "replay": "spec/state/findings/C13-F1.json"})
-        else:                                       # not (yet) decided by the coordinator: reported, never a verdict
-            ctx.notes.append("candidate finding C13-F1 reproduced (raw SetCode + revert loses uncached code); replay: spec/state/findings/C13-F1.json")
+    # finding C13-F1 (fixed by /repo 986a824788, known_findings.json: fixed): the deterministic reproduction stays in the
+    # check as a plain behaviour - a regression is a VIOLATION reported by the driver
+    ctx.drive(drv, ["-mode", "probe"], name="c13-setcode-revert", timeout=1800)
 
     # V: recorded executions of the real code validated by the trace specification
     tp = os.path.join(ctx.scratch, "trace.ndjson")
@@ -139,5 +134,4 @@ def run(ctx):
         rule="MC: all operation sequences of one transaction over 1 address x 1 slot x values 0..1 with one nested snapshot, 4 rule sets x 4 base accounts (thorough: also 2 addresses); R: all edges of the per-rule-set graphs by paths + simulated behaviours over 2 addresses x 2 slots, 4 transactions; V: random histories over 3 addresses (one is 0x03) x 2 slots",
         assumptions=["values < 2^31 (TLC integer range)",
                      "histories under EIP-6780 rule sets restricted to EVM-feasible ones (StateDB.tla F1-F5)",
-                     "SetCode is preceded by GetCode (as in the EVM's two call sites)",
-                     "reference root computed with trie.StackTrie over the model world"])
+                                          "reference root computed with trie.StackTrie over the model world"])
